@@ -444,6 +444,26 @@ def run_hook(case, mon):
                 mon.violation("%s:own-class:%s" % (bad[0], bad[1]), "random %s statement: nested %s render got a deviating %s" % (d, bad[1], bad[0]),
                               {"program": show(prog)[-10:]})
                 return
+    # str() of a statement is its rendering through its own class's context (the outermost builder supplies the default)
+    for v in env:
+        if isinstance(v, Failed):
+            continue
+        own = None
+        if isinstance(v, reg["_SetOperation"]):
+            own = v.base_query.QUERY_CLS
+        elif isinstance(v, reg["QueryBuilder"]):
+            own = v.QUERY_CLS
+        if own is None:
+            continue
+        try:
+            a, b = str(v), v.get_sql(own.SQL_CONTEXT)
+        except Exception:
+            continue
+        mon.count("str_vs_own_context")
+        if a != b:
+            mon.violation("default-render-differs:own-class:%s" % type(v).__name__, "str() of a %s statement differs from its rendering through %s.SQL_CONTEXT: %r vs %r" % (
+                d, own.__name__, a[:240], b[:240]), {"program": show(prog)[-10:]})
+            return
     if n:
         mon.nontrivial(phash(prog))
         mon.count("hooked_statements", n)
